@@ -193,4 +193,15 @@ theorem coverage_created_and_renamed_partial (fs0 : FS) (hwf : fs0.WF) (full : B
   obtain ⟨⟨⟨⟨⟨⟨⟨_, a1⟩, a2⟩, a3⟩, a4⟩, a5⟩, a6⟩, a7⟩ := hb
   exact covered_of_inv (burst_mkdir_rename _ p q inv hs hc a1 a2 a3 a4 a5 a6 a7).2.2.2.2 _ rfl rfl rfl
 
+
+/-- coverage of a directory tree that ARRIVED FROM OUTSIDE AND WAS RENAMED AT ONCE (`rename o q1; rename q1 q2` in one
+    batch): afterwards every directory of the tree - the arrived ones under their final names - is watched under its real
+    current path -/
+theorem coverage_arrived_and_renamed_partial (fs0 : FS) (hwf : fs0.WF) (full : Bool) (pre : List Op) (o q1 q2 : P)
+    (hv : allValid (Sys.start fs0 true full) pre = true) (hroot : Op.rmdir ["W"] ∉ pre)
+    (hb : moveInRenameB ((Sys.start fs0 true full).run pre).1 [.rename o q1, .rename q1 q2] = true) :
+    Covered (((Sys.start fs0 true full).run pre).1.burst [.rename o q1, .rename q1 q2]).1 := by
+  obtain ⟨inv, hs, hc⟩ := after_history fs0 hwf full pre hv hroot
+  exact covered_of_inv (paced_step _ _ inv hs hc (okBurst_of_check _ _ (by simp [okBurstB, hb]))).1 _ rfl rfl rfl
+
 end WD.C02
